@@ -7,6 +7,7 @@ import (
 	"go/token"
 	"go/types"
 	"sort"
+	"strconv"
 	"strings"
 
 	"golibcheck/internal/core"
@@ -74,6 +75,8 @@ func runC14(p *core.Program, r *core.Report) {
 	c14HashWidth(p, r)
 	r.Rule("C14.shifts", "no constant shift is as wide as its operand (the hash's high half is taken from the 64-bit value, not from a narrowed copy)", 1)
 	shiftWidthLint(p, r, "C14.shifts", []string{"util/hll"})
+	r.Rule("C14.small-range", "linear counting m*ln(m/V) is applied only with V > 0 empty registers: no path hands a helper a divisor it has not found non-zero (else the estimate is +Inf -> 2^63)", 1)
+	c14SmallRange(p, r, "C14.small-range")
 	r.Rule("C14.widen", "estimator arithmetic widens before it multiplies: no float64/int64 conversion of a product or shift computed in a 32-bit integer type (m*m wraps at log2m = 16)", 1)
 	c14Widen(p, r)
 	// the register count of a set is the caller's count in both constructors (the word array may be
@@ -1961,4 +1964,141 @@ func storedWord(info *types.Info, body *ast.BlockStmt, target ast.Expr, rhs ast.
 		return rhs
 	}
 	return defs[0]
+}
+
+// c14SmallRange: the small-range correction is the algorithm's: linear counting m*ln(m/V) is defined
+// for V > 0 empty registers only; with no empty register the raw estimate stands. A function of
+// util/hll that hands a quantity to a helper which divides by it does so only on paths that have found
+// that quantity non-zero. (With V = 0 the helper yields +Inf and the estimate of a few dozen items at a
+// low precision comes out as 2^63.)
+func c14SmallRange(p *core.Program, r *core.Report, rule string) {
+	pk := p.Pkg("util/hll")
+	if pk == nil {
+		r.Undec(rule, "util/hll", "-", "package not found")
+		return
+	}
+	// helpers with a parameter they divide by
+	divisor := map[*types.Func][]int{}
+	for _, fi := range p.Funcs {
+		if fi.Pkg != pk || fi.Decl.Body == nil {
+			continue
+		}
+		info := fi.Pkg.TypesInfo
+		var params []types.Object
+		for _, f := range fi.Decl.Type.Params.List {
+			for _, nm := range f.Names {
+				params = append(params, info.Defs[nm])
+			}
+		}
+		ast.Inspect(fi.Decl.Body, func(n ast.Node) bool {
+			be, ok := n.(*ast.BinaryExpr)
+			if !ok || be.Op != token.QUO {
+				return true
+			}
+			y := ast.Unparen(stripConvs(info, be.Y))
+			if id, ok := y.(*ast.Ident); ok {
+				for i, po := range params {
+					if po != nil && info.ObjectOf(id) == po {
+						if b, ok := po.Type().Underlying().(*types.Basic); ok && b.Info()&types.IsFloat != 0 {
+							divisor[fi.Obj] = append(divisor[fi.Obj], i)
+						}
+					}
+				}
+			}
+			return true
+		})
+	}
+	n := 0
+	for _, fi := range p.Funcs {
+		if fi.Pkg != pk || fi.Decl.Body == nil {
+			continue
+		}
+		info := fi.Pkg.TypesInfo
+		uses := false
+		ast.Inspect(fi.Decl.Body, func(m ast.Node) bool {
+			if call, ok := m.(*ast.CallExpr); ok {
+				if fn := calleeFunc(info, call); fn != nil && divisor[fn] != nil {
+					uses = true
+				}
+			}
+			return true
+		})
+		if !uses {
+			continue
+		}
+		norm := func(e ast.Expr) string { return stripSpaces(types.ExprString(e)) }
+		ps, over := paths.Enumerate(fi.Decl.Body, paths.Config{Info: info,
+			Cond: func(c ast.Expr, v bool) *paths.Event {
+				return &paths.Event{Kind: "COND", Arg: condKey(info, norm, c, v)}
+			},
+			Classify: func(m ast.Node) []paths.Event {
+				var out []paths.Event
+				ast.Inspect(m, func(k ast.Node) bool {
+					if _, isLit := k.(*ast.FuncLit); isLit {
+						return false
+					}
+					if call, ok := k.(*ast.CallExpr); ok {
+						if fn := calleeFunc(info, call); fn != nil {
+							for _, i := range divisor[fn] {
+								if i < len(call.Args) {
+									// a parameter handed on is the caller's to choose (NewHyperLogLogFloat(rsd)); a
+									// quantity the function computed itself is the function's to check
+									if aid, ok := ast.Unparen(stripConvs(info, call.Args[i])).(*ast.Ident); ok {
+										isParam := false
+										for _, f := range fi.Decl.Type.Params.List {
+											for _, nm := range f.Names {
+												if info.Defs[nm] == info.ObjectOf(aid) {
+													isParam = true
+												}
+											}
+										}
+										if isParam {
+											continue
+										}
+									}
+									out = append(out, paths.Event{Kind: "DIVBY", Arg: norm(stripConvs(info, call.Args[i])), Pos: call.Pos()})
+								}
+							}
+						}
+					}
+					return true
+				})
+				return out
+			}})
+		c := core.FuncName(fi.Obj) + " divides by a quantity it has found non-zero"
+		if over {
+			r.Undec(rule, c, p.Pos(fi.Decl.Pos()), "too many paths")
+			continue
+		}
+		n++
+		bad := ""
+		for _, pa := range ps {
+			for i, e := range pa {
+				if e.Kind != "DIVBY" {
+					continue
+				}
+				if _, err := strconv.ParseFloat(e.Arg, 64); err == nil && e.Arg != "0" {
+					continue
+				}
+				guarded := false
+				for _, g := range pa[:i] {
+					if g.Kind != "COND" {
+						continue
+					}
+					for _, want := range append(append(ccBoth(e.Arg, ">", "0", true), ccBoth(e.Arg, "==", "0", false)...), ccBoth(e.Arg, ">=", "1", true)...) {
+						if g.Arg == want {
+							guarded = true
+						}
+					}
+				}
+				if !guarded {
+					bad = "a path hands " + e.Arg + " to a helper that divides by it (at " + p.Pos(e.Pos) + ") without having found it non-zero: with no empty register the small-range correction is m*ln(m/0) = +Inf and the estimate comes out as 2^63: " + pa.String()
+				}
+			}
+		}
+		r.Check(bad == "", rule, c, p.Pos(fi.Decl.Pos()), "every division helper is reached behind a non-zero test of its divisor", bad)
+	}
+	if n == 0 {
+		r.Undec(rule, "util/hll", "-", "no caller of a dividing helper found")
+	}
 }
